@@ -1,6 +1,7 @@
 package c13
 
 import (
+	"fmt"
 	"strings"
 
 	"github.com/caddyserver/caddy/v2"
@@ -14,7 +15,19 @@ var localListens = []string{
 	"udp/192.168.1.5:53", "unix//run/caddy.sock", "unix/@caddy", "unixgram//x.sock", "unix//run/c.sock|0220", "fd/3", "fdgram/4", "",
 	"localhost", "[::ffff:127.0.0.1]:2019", "[::ffff:0.0.0.0]:2019", "[fe80::1]:2019", "LOCALHOST:2019", "::1",
 	"example.com:80", "0.0.0.0", "[2001:db8::1]:2019", "127.0.0.1:65535",
+	"localhost:02019", " TCP /localhost:2019", "Unix//run/x.sock", "tcp/:0", "[::1]", "tcp6/[::1]:2019", "localhost:2019-2019",
+	"FD/5", "unix//run/c.sock|0600", "udp/:53", "[localhost]:2019", "127.0.0.1:0", "localhost:0", ":0",
 }
+
+// listen strings the real parser rejects (or nearly): the endpoint does not start
+var badListens = []string{
+	"localhost:2019-2020", "localhost:x", "localhost:99999", "unix//run/c.sock|0444", "unix//run/c.sock|rw", "unix//run/c.sock|",
+	"[::1", "a:b:c", "localhost:-1", "localhost:2020-2019", "[::1]x:1", "::1]:80", "tcp/[::1]]:80", "localhost:", "unix//x|0200|1",
+	"localhost:+80", "[[::1]]:80", "a]b", "unix//run/c.sock|0222222", "unix//run/c.sock|02222222",
+}
+
+// what the load op may bind
+var loadListens = []string{"localhost:0", "127.0.0.1:0", "127.0.0.2:0", ":0", "0.0.0.0:0", "tcp/localhost:0", "127.0.0.1", "localhost", "0.0.0.0", "unix/c13-load-%d.sock"}
 
 var remoteListens = []string{":2021", "", "0.0.0.0:2021", "admin.example.com:2021", "localhost:2021"}
 
@@ -144,23 +157,51 @@ func originHeader(rng *core.Rand, allowed [][2]string) string {
 	}
 }
 
-func (p *prop) genCase(rng *core.Rand) string {
-	c := &acase{}
+var genSeq int
+
+func (p *prop) genCase(rng *core.Rand, load bool) string {
+	c := &acase{load: load}
 	c.remote = rng.Chance(3, 10)
-	for {
-		if c.remote {
-			c.listen = rng.Pick(remoteListens)
-		} else {
-			c.listen = rng.Pick(localListens)
+	switch {
+	case load:
+		c.listen = rng.Pick(loadListens)
+		if strings.Contains(c.listen, "%d") {
+			genSeq++
+			c.listen = fmt.Sprintf(c.listen, genSeq)
 		}
-		addr, err := caddy.VerifParseAdminListenAddr(c.listen, c.remote)
-		if err != nil {
-			continue
-		}
-		c.network, c.ahost, c.port, c.ipc = addr.Network, addr.Host, uint64(addr.StartPort), ipClass(addr.Host)
-		break
+	case rng.Chance(1, 40):
+		c.listen = rng.Pick(badListens)
+	case c.remote:
+		c.listen = rng.Pick(remoteListens)
+	default:
+		c.listen = rng.Pick(localListens)
 	}
-	addr, _ := caddy.VerifParseAdminListenAddr(c.listen, c.remote)
+	if !load && rng.Chance(1, 25) {
+		// random edits: the model parses the string itself, so anything printable goes
+		const alpha = "[]::://||--0129 atcpunixfdUX.%@"
+		b := []byte(c.listen)
+		for n := 1 + rng.Intn(2); n > 0; n-- {
+			i := rng.Intn(len(b) + 1)
+			switch rng.Intn(3) {
+			case 0:
+				b = append(b[:i], append([]byte{alpha[rng.Intn(len(alpha))]}, b[i:]...)...)
+			case 1:
+				if i < len(b) {
+					b = append(b[:i], b[i+1:]...)
+				}
+			default:
+				if i < len(b) {
+					b[i] = alpha[rng.Intn(len(alpha))]
+				}
+			}
+		}
+		c.listen = string(b)
+	}
+	addr, err := caddy.VerifParseAdminListenAddr(c.listen, c.remote)
+	c.ipc = "n"
+	if err == nil {
+		c.ipc = ipClass(addr.Host)
+	}
 	// origins
 	switch r := rng.Intn(20); {
 	case r < 9 || c.remote && r < 16:
@@ -178,7 +219,7 @@ func (p *prop) genCase(rng *core.Rand) string {
 	c.eo = rng.Chance(4, 10)
 	// ACL
 	switch r := rng.Intn(20); {
-	case !c.remote && r < 17 || c.remote && r == 0:
+	case !c.remote && r < 17 || c.remote && r == 0 && !load:
 		c.aclNil = true
 	case r == 1:
 	default:
@@ -222,7 +263,7 @@ func (p *prop) genCase(rng *core.Rand) string {
 		}
 	}
 	// request
-	s := specOf(c, addr)
+	s := specOf(c)
 	c.method = rng.Pick(methodPool)
 	c.host = hostVariants(rng, s.allowedHosts, addr)
 	switch rng.Intn(10) {
@@ -292,29 +333,35 @@ func (p *prop) genCase(rng *core.Rand) string {
 var malformed = []string{
 	"req",
 	"nop L",
-	"req X 6c6f63616c686f73743a32303139:746370:6c6f63616c686f7374:2019:n ~ 0 ~ . . 474554 6c6f63616c686f73743a32303139 2f636f6e6669672f . -:1:-:- -:1:-:- ~",
-	"req L 6c6f63616c686f73743a32303139:746370:6c6f63616c686f7374:2019:n ~ 0 ~ . . 474554 6c6f63616c686f73743a32303139 2f636f6e6669672f . -:1:-:- -:1:-:-",
-	"req L 6c6f63616c686f73743a32303139:746370:6c6f63616c686f7374:2019:n ~ 2 ~ . . 474554 6c6f63616c686f73743a32303139 2f636f6e6669672f . -:1:-:- -:1:-:- ~",
-	"req L 6c6f63616c686f73743a32303139:746370:6c6f63616c686f7374:2019:q ~ 0 ~ . . 474554 6c6f63616c686f73743a32303139 2f636f6e6669672f . -:1:-:- -:1:-:- ~",
-	"req L 6c6f63616c686f73743a32303139:746370:6c6f63616c686f7374:2019:n ~ 0 ~ . . 474554 6c6f63616c686f73743a32303139 2f636f6e6669672 . -:1:-:- -:1:-:- ~",
-	"req L 6c6f63616c686f73743a32303139:746370:6c6f63616c686f7374:2019:n ~ 0 ~ . . 474554 zz 2f636f6e6669672f . -:1:-:- -:1:-:- ~",
+	"req X 6c6f63616c686f73743a32303139:n ~ 0 ~ . . 474554 6c6f63616c686f73743a32303139 2f636f6e6669672f . -:1:-:- -:1:-:- ~",
+	"req L 6c6f63616c686f73743a32303139:n ~ 0 ~ . . 474554 6c6f63616c686f73743a32303139 2f636f6e6669672f . -:1:-:- -:1:-:-",
+	"req L 6c6f63616c686f73743a32303139:n ~ 2 ~ . . 474554 6c6f63616c686f73743a32303139 2f636f6e6669672f . -:1:-:- -:1:-:- ~",
+	"req L 6c6f63616c686f73743a32303139:q ~ 0 ~ . . 474554 6c6f63616c686f73743a32303139 2f636f6e6669672f . -:1:-:- -:1:-:- ~",
+	"req L 6c6f63616c686f73743a32303139:n ~ 0 ~ . . 474554 6c6f63616c686f73743a32303139 2f636f6e6669672 . -:1:-:- -:1:-:- ~",
+	"req L 6c6f63616c686f73743a32303139:n ~ 0 ~ . . 474554 zz 2f636f6e6669672f . -:1:-:- -:1:-:- ~",
 	// path with a byte outside the safe alphabet ("/a b")
-	"req L 6c6f63616c686f73743a32303139:746370:6c6f63616c686f7374:2019:n ~ 0 ~ . . 474554 6c6f63616c686f73743a32303139 2f612062 . -:1:-:- -:1:-:- ~",
+	"req L 6c6f63616c686f73743a32303139:n ~ 0 ~ . . 474554 6c6f63616c686f73743a32303139 2f612062 . -:1:-:- -:1:-:- ~",
 	// path not starting with "/"
-	"req L 6c6f63616c686f73743a32303139:746370:6c6f63616c686f7374:2019:n ~ 0 ~ . . 474554 6c6f63616c686f73743a32303139 636f6e666967 . -:1:-:- -:1:-:- ~",
+	"req L 6c6f63616c686f73743a32303139:n ~ 0 ~ . . 474554 6c6f63616c686f73743a32303139 636f6e666967 . -:1:-:- -:1:-:- ~",
 	// probe pattern equal to a built-in ("/stop"), duplicate probe patterns
-	"req L 6c6f63616c686f73743a32303139:746370:6c6f63616c686f7374:2019:n ~ 0 ~ 2f73746f70 . 474554 6c6f63616c686f73743a32303139 2f636f6e6669672f . -:1:-:- -:1:-:- ~",
-	"req L 6c6f63616c686f73743a32303139:746370:6c6f63616c686f7374:2019:n ~ 0 ~ 2f70,2f70 . 474554 6c6f63616c686f73743a32303139 2f636f6e6669672f . -:1:-:- -:1:-:- ~",
+	"req L 6c6f63616c686f73743a32303139:n ~ 0 ~ 2f73746f70 . 474554 6c6f63616c686f73743a32303139 2f636f6e6669672f . -:1:-:- -:1:-:- ~",
+	"req L 6c6f63616c686f73743a32303139:n ~ 0 ~ 2f70,2f70 . 474554 6c6f63616c686f73743a32303139 2f636f6e6669672f . -:1:-:- -:1:-:- ~",
 	// CONNECT with an unclean path, POST /stop, empty method, key id 8
-	"req L 6c6f63616c686f73743a32303139:746370:6c6f63616c686f7374:2019:n ~ 0 ~ . . 434f4e4e454354 6c6f63616c686f73743a32303139 2f2f61 . -:1:-:- -:1:-:- ~",
-	"req L 6c6f63616c686f73743a32303139:746370:6c6f63616c686f7374:2019:n ~ 0 ~ . . 504f5354 6c6f63616c686f73743a32303139 2f73746f70 . -:1:-:- -:1:-:- ~",
-	"req L 6c6f63616c686f73743a32303139:746370:6c6f63616c686f7374:2019:n ~ 0 ~ . . - 6c6f63616c686f73743a32303139 2f636f6e6669672f . -:1:-:- -:1:-:- ~",
-	"req R 3a32303231:746370:-:2021:n ~ 0 0/. . . 474554 78 2f636f6e6669672f . -:1:-:- -:1:-:- 8",
-	"req R 3a32303231:746370:-:2021:n ~ 0 0/. . . 474554 78 2f636f6e6669672f . -:1:-:- -:1:-:- 1;",
+	"req L 6c6f63616c686f73743a32303139:n ~ 0 ~ . . 434f4e4e454354 6c6f63616c686f73743a32303139 2f2f61 . -:1:-:- -:1:-:- ~",
+	"req L 6c6f63616c686f73743a32303139:n ~ 0 ~ . . 504f5354 6c6f63616c686f73743a32303139 2f73746f70 . -:1:-:- -:1:-:- ~",
+	"req L 6c6f63616c686f73743a32303139:n ~ 0 ~ . . - 6c6f63616c686f73743a32303139 2f636f6e6669672f . -:1:-:- -:1:-:- ~",
+	"req R 3a32303231:n ~ 0 0/. . . 474554 78 2f636f6e6669672f . -:1:-:- -:1:-:- 8",
+	"req R 3a32303231:n ~ 0 0/. . . 474554 78 2f636f6e6669672f . -:1:-:- -:1:-:- 1;",
 	// non-ASCII Upgrade value (K = U+212A KELVIN SIGN lower-cases to k in Go)
-	"req L 6c6f63616c686f73743a32303139:746370:6c6f63616c686f7374:2019:n ~ 0 ~ . . 474554 6c6f63616c686f73743a32303139 2f636f6e6669672f 776562736f63e284aa6574 -:1:-:- -:1:-:- ~",
+	"req L 6c6f63616c686f73743a32303139:n ~ 0 ~ . . 474554 6c6f63616c686f73743a32303139 2f636f6e6669672f 776562736f63e284aa6574 -:1:-:- -:1:-:- ~",
+	// the address field in its former five-part form, a listen string with a placeholder brace
+	"req L 6c6f63616c686f73743a32303139:746370:6c6f63616c686f7374:2019:n ~ 0 ~ . . 474554 6c6f63616c686f73743a32303139 2f636f6e6669672f . -:1:-:- -:1:-:- ~",
+	"req L 7b656e762e587d3a32303139:n ~ 0 ~ . . 474554 6c6f63616c686f73743a32303139 2f636f6e6669672f . -:1:-:- -:1:-:- ~",
+	// load op on an address the harness must not bind (localhost:2019), remote load without access controls
+	"load L 6c6f63616c686f73743a32303139:n ~ 0 ~ . . 474554 6c6f63616c686f73743a32303139 2f636f6e6669672f . -:1:-:- -:1:-:- ~",
+	"load R 3a30:n ~ 0 ~ . . 474554 78 2f636f6e6669672f . -:1:-:- -:1:-:- .",
 	// id loop: /id/loop -> /id/loop
-	"req L 6c6f63616c686f73743a32303139:746370:6c6f63616c686f7374:2019:n ~ 0 ~ . 6c6f6f70:2f69642f6c6f6f70 474554 6c6f63616c686f73743a32303139 2f69642f6c6f6f70 . -:1:-:- -:1:-:- ~",
+	"req L 6c6f63616c686f73743a32303139:n ~ 0 ~ . 6c6f6f70:2f69642f6c6f6f70 474554 6c6f63616c686f73743a32303139 2f69642f6c6f6f70 . -:1:-:- -:1:-:- ~",
 }
 
 func (p *prop) Generate(rng *core.Rand, tier string, emit func(string)) {
@@ -331,7 +378,11 @@ func (p *prop) Generate(rng *core.Rand, tier string, emit func(string)) {
 	for _, m := range malformed {
 		emit(m)
 	}
+	nload := n / 50
 	for i := 0; i < n; i++ {
-		emit(p.genCase(rng))
+		emit(p.genCase(rng, false))
+		if i%50 == 0 && nload > 0 {
+			emit(p.genCase(rng, true))
+		}
 	}
 }
